@@ -620,6 +620,56 @@ fn classify(engine: &str, want: &Expected, group: &str) -> String {
     "c20:round:digits".to_string()
 }
 
+enum SciClass {
+    Modelled,
+    Nonfinite,
+    Log10Zone,
+}
+
+/// Which scientific inputs the Lean model answers (mirrors `sciStage` / `log10Floor`): `v` is the scaled value.
+/// * the value after the first `to_precision`, the mantissa after the division and its 15-digit reduction must
+///   be finite (otherwise the engine prints `inf` / `NaN` fragments: "nonfinite" on both sides);
+/// * libm's `log10` is not correctly rounded: within a few ulps of a power of ten `floor(log10(v))` can go
+///   either way. The model answers for the doubles nearest to a power of ten and everywhere outside the zone
+///   where the first 12 significant digits (truncated) are 999999999999 or 100000000000.
+fn sci_model_class(v: f64, precision: usize) -> SciClass {
+    let l = format!("{}", v.abs().floor()).len();
+    let v1 = ironcalc_base::number_format::to_precision(v, precision + l).abs();
+    if !v1.is_finite() {
+        return SciClass::Nonfinite;
+    }
+    if v1 == 0.0 {
+        return SciClass::Modelled;
+    }
+    let text = format!("{:.40e}", v1);
+    let (mant, exp) = text.split_once('e').unwrap();
+    let k: i32 = exp.parse().unwrap();
+    let digits: String = mant.chars().filter(|c| c.is_ascii_digit()).take(12).collect();
+    let is_rn_pow = |j: i32| format!("1e{j}").parse::<f64>().map(|p| p == v1).unwrap_or(false);
+    let exact_power = is_rn_pow(k) || is_rn_pow(k + 1);
+    if !exact_power && (digits == "999999999999" || digits == "100000000000") {
+        return SciClass::Log10Zone;
+    }
+    let e = v1.log10().floor();
+    let m = ironcalc_base::number_format::to_precision(v1 / 10f64.powf(e), 15);
+    if !m.is_finite() {
+        return SciClass::Nonfinite;
+    }
+    SciClass::Modelled
+}
+
+/// regenerates `Generated/Pow10.lean`: the bit patterns of `10.0_f64.powf(e)` the scientific branch divides by
+pub fn extract(dir: &std::path::Path) {
+    let mut out = String::from(
+        "/-\n  GENERATED by `verif_harness extract` from the running code: the bit patterns of\n  `10.0_f64.powf(e as f64)` for e = -330 ..= 310 (index e + 330), i.e. what the scientific branch\n  of `format_number` divides by.  libm's `pow` is NOT correctly rounded (10^23, 10^210, …), which\n  is why this is a table and not a formula.  Do not edit.\n-/\nnamespace IronCalc.Generated.Pow10\n\ndef lo : Int := -330\n\ndef bits : Array Nat := #[\n",
+    );
+    let rows: Vec<u64> = (-330..=310).map(|e| 10.0_f64.powf(e as f64).to_bits()).collect();
+    let lines: Vec<String> = rows.chunks(4).map(|c| format!("  {}", c.iter().map(|b| b.to_string()).collect::<Vec<_>>().join(", "))).collect();
+    out.push_str(&lines.join(",\n"));
+    out.push_str("\n]\n\nend IronCalc.Generated.Pow10\n");
+    crate::suites::write_if_changed(&dir.join("Pow10.lean"), &out);
+}
+
 fn eval_fmt(req: &str) -> ImplOut {
     let f: Vec<&str> = req.split(' ').collect();
     if f.len() != 8 {
@@ -670,14 +720,22 @@ fn eval_fmt(req: &str) -> ImplOut {
     };
     let mut model_out_of_family = false;
     let mut nonfinite = false;
+    let mut log10_zone = false;
     if let Some(i) = idx {
         if let ParsePart::Number(p) = &parts[i] {
-            if p.is_scientific || p.precision > 22 || p.percent > 11 || p.comma > 7 || p.color.is_some() || p.currency.is_some() {
+            if p.precision > 22 || p.percent > 11 || p.comma > 7 || p.color.is_some() || p.currency.is_some() {
                 model_out_of_family = true;
             } else {
                 let xv = if parts.len() >= 3 && x == 0.0 { 0.0 } else { x };
                 let v = xv * 100f64.powi(p.percent) / 1000f64.powi(p.comma);
                 nonfinite = !v.is_finite();
+                if p.is_scientific && !nonfinite {
+                    match sci_model_class(v, p.precision as usize) {
+                        SciClass::Modelled => {}
+                        SciClass::Nonfinite => nonfinite = true,
+                        SciClass::Log10Zone => log10_zone = true,
+                    }
+                }
             }
         }
     }
@@ -686,6 +744,9 @@ fn eval_fmt(req: &str) -> ImplOut {
     }
     if nonfinite {
         return ImplOut::new("nonfinite".into()).trivial().tag("nonfinite-after-scaling");
+    }
+    if log10_zone {
+        return ImplOut::new("unsupported".into()).trivial().tag("unsupported:log10-zone");
     }
     if r.error.is_some() {
         out = ImplOut::new("VALUE".into()).tag("value-error");
@@ -816,16 +877,63 @@ fn eval_parse(req: &str) -> ImplOut {
 // ---------------------------------------------------------------------------------------------
 // c20-sci: scientific codes `0.00E+00` (one integer placeholder), oracle only
 
+pub const SCI_CODES: &[&str] = &[
+    "0E+0", "0.0E+0", "0.00E+00", "0.000E+00", "0.00E-00", "0.0E-0", "0.00000E+000", "#.##E+0", "##0.0E+0", "0E+00", "0.00E+0", "0.0##E+0",
+    "00.0E+00", "0.00E+?0", "0.00E+#0", "$0.00E+00", "0.00E+00 \"u\"", "0.00E+00;(0.00E-00)", "0.0E+0%", "#,##0.0E+0", "0.0000000000000E+00",
+];
+
 fn gen_sci(ctx: &Ctx, sink: &mut dyn FnMut(String)) {
-    let codes = ["0E+0", "0.0E+0", "0.00E+00", "0.000E+00", "0.00E-00", "0.0E-0", "0.00000E+000", "#.##E+0"];
-    for (x, c) in [(1.0, "0.00E+00"), (5.0, "0.00E+00"), (99.96, "0.00E+00"), (12345.0, "0.00E+00"), (0.00012345, "0.00E+00"), (0.0, "0.00E+00"), (-10.0, "0.0E+00")] {
-        sink(format!("c20 sci {} {}", (x as f64).to_bits(), hex(c)));
-    }
-    let n = if ctx.tier == Tier::Quick { 20_000 } else { 500_000 };
+    let locs = locales();
     let mut r = Rng::new(ctx.seed ^ 0x5c1);
+    for (x, c) in [
+        (1.0, "0.00E+00"), (5.0, "0.00E+00"), (99.96, "0.00E+00"), (9.995, "0.00E+00"), (9.9951, "0.00E+00"), (0.09996, "0.00E+00"), (950.0, "0E+0"),
+        (12345.0, "0.00E+00"), (12345.0, "##0.0E+0"), (0.00012345, "0.00E+00"), (0.0, "0.00E+00"), (-0.0, "0.0E-0"), (-10.0, "0.0E+00"),
+        (8.85635650623454e172, "0.000E+00"), (1e308, "0.00E+00"), (1.7976931348623157e308, "0.00E+00"), (5e-324, "0.00E+00"), (1e-310, "0.0E-0"),
+        (2.2250738585072014e-308, "0.00000E+000"), (999.9999999999999, "0.00E+00"), (1e23, "0.00E+00"), (1e22, "0E+00"),
+    ] {
+        for l in &locs {
+            sink(req_fmt(x, c, l));
+        }
+    }
+    // every double nearest to a power of ten, and its neighbours
+    for e in -323i32..=308 {
+        let p: f64 = format!("1e{e}").parse().unwrap();
+        let code = SCI_CODES[((e + 323) as usize) % SCI_CODES.len()];
+        sink(req_fmt(p, "0.00E+00", "en"));
+        sink(req_fmt(-p, code, &locs[((e + 323) as usize) % locs.len()]));
+        for d in [-2i64, -1, 1, 2] {
+            let q = f64::from_bits((p.to_bits() as i64 + d) as u64);
+            if q.is_finite() && q > 0.0 {
+                sink(req_fmt(q, "0.0000E+00", "en"));
+            }
+        }
+    }
+    let n = if ctx.tier == Tier::Quick { 30_000 } else { 800_000 };
     for _ in 0..n {
-        let x = gen_double(&mut r);
-        sink(format!("c20 sci {} {}", x.to_bits(), { let c: &str = *r.pick(&codes); hex(c) }));
+        let x = match r.below(10) {
+            0 => {
+                // 9.99…5 carry cases at every magnitude
+                let nines = r.below(15) as usize;
+                let e = r.range(-320, 306);
+                format!("9.{}{}e{}", "9".repeat(nines), r.pick(&["5", "4", "6", "49", "51", "95"]), e).parse::<f64>().unwrap()
+            }
+            1 => {
+                // subnormals
+                let sh = 1 + r.below(52);
+                f64::from_bits(1 + r.below(1u64 << sh))
+            }
+            2 => {
+                // few-digit mantissas at every magnitude
+                let e = r.range(-323, 308);
+                format!("{}.{}e{}", 1 + r.below(9), r.below(10000), e).parse::<f64>().unwrap()
+            }
+            _ => gen_double(&mut r),
+        };
+        let x = if x.is_finite() { x } else { 1.0 };
+        let x = if r.chance(1, 5) { -x } else { x };
+        let code: &str = *r.pick(SCI_CODES);
+        let l: &String = r.pick(&locs);
+        sink(req_fmt(x, code, l));
     }
 }
 
@@ -906,27 +1014,43 @@ fn sci_expected(x: f64, code: &str) -> Option<(String, bool)> {
 }
 
 fn eval_sci(req: &str) -> ImplOut {
+    // the answer compared with the model is the one of the `fmt` op; the oracle below is specific to `E` codes
+    let mut out = eval_fmt(req);
     let f: Vec<&str> = req.split(' ').collect();
+    if f.len() != 8 || !out.ans.starts_with('T') {
+        return out;
+    }
     let x = f64::from_bits(f[2].parse().unwrap());
     let code = unhex(f[3]).unwrap();
-    let loc = get_locale("en").unwrap();
-    let r = std::panic::catch_unwind(|| format_number(x, &code, loc));
-    let r = match r {
-        Ok(r) => r,
-        Err(_) => return ImplOut::new("panic".into()).fail("c20:panic", &format!("format_number({x:?}, {code:?}) panicked")),
+    let dec = unhex(f[4]).unwrap();
+    let engine = unhex(&out.ans[1..]).unwrap_or_default();
+    out.nontrivial = true;
+    // the oracle covers the plain shape 0E+0 / 0.0…E±0… only
+    let plain = {
+        let b = code.as_bytes();
+        let mut i = 0;
+        let mut ok = !b.is_empty() && b[0] == b'0';
+        i += 1;
+        if ok && i < b.len() && b[i] == b'.' {
+            i += 1;
+            let st = i;
+            while i < b.len() && b[i] == b'0' {
+                i += 1;
+            }
+            ok = i > st;
+        }
+        ok = ok && i + 1 < b.len() && b[i] == b'E' && (b[i + 1] == b'+' || b[i + 1] == b'-');
+        i += 2;
+        ok && i < b.len() && b[i..].iter().all(|c| *c == b'0')
     };
-    let mut out = ImplOut::new(format!("T{}", hex(&r.text)));
-    if !x.is_finite() {
-        return out.trivial();
-    }
-    match sci_expected(x, &code) {
-        None => out = out.tag("sci:shape-not-checked").trivial(),
+    match if plain { sci_expected(x, &code) } else { None } {
+        None => out = out.tag("sci:shape-not-checked"),
         Some((want, tie)) => {
+            let want = want.replace('.', &dec);
             out = out.tag(if tie { "sci:tie" } else { "sci:checked" });
-            if r.text != want {
-                // classify
+            if engine != want {
                 let (wm, we) = want.split_once('E').unwrap();
-                let sig = match r.text.split_once('E') {
+                let sig = match engine.split_once('E') {
                     Some((m, e)) if m == wm && e != we => {
                         if e.trim_start_matches(['+', '-']) == we.trim_start_matches(['+', '-']) {
                             "c20:sci:exponent-sign"
@@ -938,7 +1062,7 @@ fn eval_sci(req: &str) -> ImplOut {
                     Some(_) => "c20:sci:mantissa",
                     None => "c20:sci:shape",
                 };
-                out = out.fail(sig, &format!("x={x:?} format={code:?} engine={:?} spec={want:?}", r.text));
+                out = out.fail(sig, &format!("x={x:?} format={code:?} engine={engine:?} spec={want:?}"));
             }
         }
     }
@@ -965,8 +1089,8 @@ pub fn suites() -> Vec<Suite> {
         },
         Suite {
             name: "c20-sci",
-            rule: "scientific codes with one integer placeholder, locale en, oracle only: mantissa = round15 then half away to d+1 significant digits, exponent sign and zero padding",
-            modelled: false,
+            rule: "scientific codes (21 codes: 0.00E+00, ##0.0E+0, 0E+00, E- variants, #/? exponent placeholders, literals, two sections, percent) x every locale x doubles incl. all 632 doubles nearest to a power of ten and their +-1,2 ulp neighbours, 9.99..5 carry patterns at every magnitude, subnormals, 1e308, f64::MAX; the model computes the full text bit-exactly (pow table regenerated from the running code; the libm log10 zone within 1e-11 of a power of ten answers 'unsupported' on both sides); oracle = round15 then half away to d+1 significant digits, exponent sign and padding (codes of the shape 0.0..E+-0..)",
+            modelled: true,
             gen: gen_sci,
             eval: eval_sci,
             exhaustive: never,
